@@ -34,6 +34,8 @@ func main() {
 		cmdRand(os.Args[2:])
 	case "two":
 		cmdTwo(os.Args[2:])
+	case "exhaust":
+		cmdExhaust(os.Args[2:])
 	case "race":
 		cmdRace(os.Args[2:])
 	case "rerun":
@@ -85,6 +87,7 @@ func cmdRand(args []string) {
 	weird := fs.Float64("weird", 0.25, "probability of unusual construction calls")
 	out := fs.String("out", "", "trace file")
 	plansOut := fs.String("plans", "", "also write the plans (for replay)")
+	runBase := fs.Int("runbase", 0, "first run number")
 	fs.Parse(args)
 	r := rand.New(rand.NewSource(*seed))
 	f, err := os.Create(*out)
@@ -106,8 +109,8 @@ func cmdRand(args []string) {
 	seen := map[string]bool{}
 	for i := 0; i < *n; i++ {
 		p := dh.GenPlan(r, *maxv, *weird)
-		p.Run = i + 1
-		p.G = fmt.Sprintf("g%d", i+1)
+		p.Run = *runBase + i + 1
+		p.G = fmt.Sprintf("g%d", p.Run)
 		res := dh.RunPlans([]*dh.Plan{&p})
 		if pw != nil {
 			b, _ := json.Marshal(&p)
@@ -147,6 +150,7 @@ func cmdTwo(args []string) {
 	seed := fs.Int64("seed", 1, "seed")
 	maxv := fs.Int("maxv", 3, "max vertices")
 	out := fs.String("out", "", "trace file")
+	runBase := fs.Int("runbase", 0, "first run number")
 	fs.Parse(args)
 	r := rand.New(rand.NewSource(*seed))
 	f, err := os.Create(*out)
@@ -159,8 +163,8 @@ func cmdTwo(args []string) {
 	for i := 0; i < *n; i++ {
 		p1 := dh.GenPlan(r, *maxv, 0)
 		p2 := dh.GenPlan(r, *maxv, 0)
-		p1.Run, p2.Run = 2*i+1, 2*i+2
-		p1.G, p2.G = fmt.Sprintf("g1_%d", i), fmt.Sprintf("g2_%d", i)
+		p1.Run, p2.Run = *runBase+2*i+1, *runBase+2*i+2
+		p1.G, p2.G = fmt.Sprintf("g1_%d", p1.Run), fmt.Sprintf("g2_%d", p2.Run)
 		p1.CancelAt, p2.CancelAt = -1, -1
 		res := dh.RunPlans([]*dh.Plan{&p1, &p2})
 		// direct observation: the same Task is never inside its function in both graphs at once
@@ -337,3 +341,124 @@ func cmdRace(args []string) {
 }
 
 func r0(k int) int { return (k * 37) % 50 }
+
+// exhaust -v N -outs nil,skipparents -orders K -shard k -of n -out FILE: every DAG on N vertices (edges from
+// later to earlier vertices) x every assignment of the given outcomes to the vertices x K edge declaration
+// orders (forward, reverse, shuffled...), each run once under a seeded schedule.
+func cmdExhaust(args []string) {
+	fs := flag.NewFlagSet("exhaust", flag.ExitOnError)
+	nv := fs.Int("v", 3, "vertices")
+	outs := fs.String("outs", "nil,err,skipparents", "outcome alphabet")
+	orders := fs.Int("orders", 3, "edge declaration orders per graph")
+	shard := fs.Int("shard", 0, "shard")
+	of := fs.Int("of", 1, "shards")
+	seed := fs.Int64("seed", 1, "seed")
+	limit := fs.Int("limit", 0, "SetMaxParallel (0: default)")
+	serial := fs.Bool("serial", false, "serial mode")
+	out := fs.String("out", "", "trace file")
+	plansOut := fs.String("plans", "", "also write the plans (for replay)")
+	runBase := fs.Int("runbase", 0, "first run number")
+	fs.Parse(args)
+	alphabet := splitComma(*outs)
+	r := rand.New(rand.NewSource(*seed))
+	f, err := os.Create(*out)
+	if err != nil {
+		die("%v", err)
+	}
+	w := bufio.NewWriterSize(f, 1<<20)
+	var pw *bufio.Writer
+	if *plansOut != "" {
+		pf, err := os.Create(*plansOut)
+		if err != nil {
+			die("%v", err)
+		}
+		defer pf.Close()
+		pw = bufio.NewWriter(pf)
+		defer pw.Flush()
+	}
+	ids := dh.Universe[:*nv]
+	type edge struct{ t, d int }
+	all := []edge{}
+	for i := 0; i < *nv; i++ {
+		for j := 0; j < i; j++ {
+			all = append(all, edge{i, j})
+		}
+	}
+	cases, nontrivial, run := 0, 0, 0
+	nOut := 1
+	for i := 0; i < *nv; i++ {
+		nOut *= len(alphabet)
+	}
+	for mask := 0; mask < 1<<len(all); mask++ {
+		es := []edge{}
+		for k, e := range all {
+			if mask&(1<<k) != 0 {
+				es = append(es, e)
+			}
+		}
+		for oc := 0; oc < nOut; oc++ {
+			for ord := 0; ord < *orders; ord++ {
+				run++
+				if run%*of != *shard {
+					continue
+				}
+				p := dh.Plan{Run: *runBase + run, G: fmt.Sprintf("x%d", *runBase+run), Tasks: append([]string{}, ids...), Limit: *limit, Serial: *serial,
+					Outcomes: map[string][]string{}, CancelAt: -1, Seed: r.Int63(), Sticky: []float64{0, 0.5, 0.9}[r.Intn(3)]}
+				x := oc
+				for i := 0; i < *nv; i++ {
+					p.Outcomes[ids[i]] = []string{alphabet[x%len(alphabet)]}
+					x /= len(alphabet)
+				}
+				seq := append([]edge{}, es...)
+				switch ord {
+				case 0:
+				case 1:
+					for a, b := 0, len(seq)-1; a < b; a, b = a+1, b-1 {
+						seq[a], seq[b] = seq[b], seq[a]
+					}
+				default:
+					r.Shuffle(len(seq), func(a, b int) { seq[a], seq[b] = seq[b], seq[a] })
+				}
+				for _, id := range ids {
+					p.History = append(p.History, dh.Op{Op: "add", T: id})
+				}
+				for _, e := range seq {
+					p.History = append(p.History, dh.Op{Op: "dep", T: ids[e.t], D: ids[e.d]})
+				}
+				res := dh.RunPlans([]*dh.Plan{&p})
+				if pw != nil {
+					b, _ := json.Marshal(&p)
+					pw.Write(b)
+					pw.WriteByte('\n')
+				}
+				if res.Hang {
+					res.Events = append(res.Events, dh.Event{Ev: "hang", G: p.G, Tags: [][]string{}, Order: []string{}, Tasks: []string{}})
+				}
+				writeEvents(w, res.Events)
+				cases++
+				if _, nt := summarize(res.Events); nt {
+					nontrivial++
+				}
+			}
+		}
+	}
+	w.Flush()
+	f.Close()
+	fmt.Printf("exhaust cases=%d nontrivial=%d\n", cases, nontrivial)
+	b, _ := json.Marshal(stats)
+	fmt.Printf("STATS %s\n", b)
+}
+
+func splitComma(s string) []string {
+	out := []string{}
+	cur := ""
+	for _, ch := range s {
+		if ch == ',' {
+			out = append(out, cur)
+			cur = ""
+		} else {
+			cur += string(ch)
+		}
+	}
+	return append(out, cur)
+}
